@@ -339,5 +339,7 @@ Definition env_csop (e : senv) (hs : pvec entity) (o : csop) : senv * option (op
 
 Definition eids_of (l : list entity) : NS.t := fold_right (fun e s => NS.add (fst e) s) NS.empty l.
 
+Definition jout_wout (j : jout) : wout := match j with JSkipped => WSkip | _ => WJoin j end.
+
 Definition cs_out (r : option (option (list (N * Z)))) : wout :=
   match r with None => WSkip | Some None => WUnit | Some (Some l) => WAmts l end.
